@@ -104,6 +104,12 @@ FUNC_PARAM = {
     ("core/coord_payload.py", "other"): {"CoordPayload", "Payload", IMM},
 }
 
+# per-function parameter types (function qualname prefix, parameter)
+QUAL_PARAM = {
+    ("Fiber._splitNonUniform_iter", "splits"): {LIST},
+    ("Fiber.splitNonUniform", "splits"): {LIST, "Fiber"},
+}
+
 BUILTIN_RET = {
     "len": {INT}, "int": {INT}, "str": {STR}, "float": {FLOAT}, "bool": {BOOL},
     "min": {IMM}, "max": {IMM}, "sum": {IMM}, "abs": {IMM}, "id": {INT},
@@ -296,7 +302,12 @@ class Typing:
             out = merge(out, {TUPLE})
         if name == func.kwarg:
             out = merge(out, {DICT})
-        fp = FUNC_PARAM.get((func.module.rel, name))
+        fp = None
+        for (q, pn), v in QUAL_PARAM.items():
+            if pn == name and (func.qual == q or func.qual.startswith(q + ".")):
+                fp = v
+        if fp is None:
+            fp = FUNC_PARAM.get((func.module.rel, name))
         if fp:
             if name == func.vararg:
                 return fp
